@@ -51,7 +51,7 @@ try:
                 e["VERIF_BUDGET_S"] = budget
             if prop == "C15":
                 e["VERIF_C15_OUT"] = tempfile.mkdtemp(prefix="c15out-")
-            rc, out = sh("/verif/check %s %s" % (prop, tier), env=e, timeout=7200)
+            rc, out = sh("%s/check %s %s" % (os.environ.get("VERIF_HOME", "/verif"), prop, tier), env=e, timeout=7200)
             viol = [l.replace(wt, "/repo") for l in out.splitlines() if l.startswith("VIOLATION")]
             sigs = [l.strip().replace(wt, "/repo") for l in out.splitlines() if l.strip().startswith("signature:")]
             res["ran"].append({"cmd": "VERIF_REPO=<worktree with patch> ./check %s %s%s" % (prop, tier, (" (VERIF_BUDGET_S=%s)" % budget) if budget else ""), "exit": rc, "violations": len(viol), "signatures": sigs[:6]})
